@@ -2,7 +2,8 @@
    Records = log lines after the line-local steps (format parsing, where, set, group key), which
    are the same code centrally and distributed and are checked against an independent reference
    by the correspondence run; this file is about the aggregation algebra. *)
-From DT Require Import Lib.Bytes Model.C05_Mapr Proofs.C05_Mapr.
+From Coq Require Import Permutation.
+From DT Require Import Lib.Bytes Model.C05_Mapr Proofs.C05_Mapr Proofs.C05_Order.
 
 (* However the records are cut into chunks - servers x files x serialisation intervals, any
    number and any sizes, empty chunks included - aggregating every chunk where it lives, sending
@@ -35,9 +36,14 @@ Theorem C05_order_numeric : forall op c v1 v2 c1 c12 c2 c21, numeric_op op = tru
 Proof. exact agg1_comm_num. Qed.
 Print Assumptions C05_order_numeric.
 
-(* The full order statement over whole runs (Permutation of the chunk list leaves every numeric
-   column of every group unchanged) follows from the two theorems above by a routine lifting that
-   is not mechanised here; the correspondence check exercises it with random arrival orders. *)
+(* Whole runs: the partial results of the servers may reach the client in any order - for a select
+   list of numeric aggregations (count, sum, min, max, avg) every group's aggregate set is the same
+   for every permutation of the chunk list. *)
+Theorem C05_order : forall (ops : list aop) (chunks chunks' : list (list record)) (k : bytes),
+  forallb numeric_op ops = true -> Permutation chunks chunks' ->
+  gget (distributed true ops chunks) k = gget (distributed true ops chunks') k.
+Proof. exact distributed_order. Qed.
+Print Assumptions C05_order.
 
 Example C05_example :
   let v s n := Some {| v_raw := s; v_num := n |} in
